@@ -131,6 +131,18 @@ func modeC03(thorough bool) {
 		}
 		inc.close()
 	}
+	// an upstream reply of 65530 octets to a client with EDNS0 on the stream listeners: with the proxy's own OPT the
+	// response no longer fits a frame. It is cut (TC) - never sent under a length prefix that wrapped around
+	for _, lst := range []string{"tcp", "tls", "gnet", "quic"} {
+		hn := fmt.Sprintf("h%s.z2.test.", lst)
+		in.ups["u2"].setSeq(hn, "r0t60d0fH")
+		hq := mkq(hn)
+		hq.opt = true
+		if lst == "quic" {
+			hq.id = 0
+		}
+		in.send(lst, "", hq, 4*time.Second, nil)
+	}
 	// a short idle time-out (1 s) and an upstream that takes 2.5 s: a connection with a query in flight is not
 	// idle - the client keeps it open and gets its response on it
 	if ini, err := newInst("c03-idle", instOpts{listeners: []string{"tcp", "gnet", "tls", "quic", "http", "https", "fasthttp"}, upstreams: map[string]string{"u1": "udp"}, rules: []ruleSpec{{Forward: "u1"}}, idleTimeout: 1}); err == nil {
